@@ -310,7 +310,12 @@ def main():
         gg.BMM_SQUARE_PROB = 0.35
       dist['directed:square-bmm'] += 1
     else:
-      mb, info = gg.gen_model(rng, max_ops=rng.choice([2, 4, 6]), op_weights=wops if rng.random() < 0.7 else None)
+      # every 9th ordinary model also RETURNS one of its constants (a weight that is a graph output)
+      gg.CONST_OUTPUT_PROB = 1.0 if k % 9 == 4 else 0.0
+      try:
+        mb, info = gg.gen_model(rng, max_ops=rng.choice([2, 4, 6]), op_weights=wops if rng.random() < 0.7 else None)
+      finally:
+        gg.CONST_OUTPUT_PROB = 0.0
     qt = quantizer.Quantizer(bytearray(mb))
     r = rng.random()
     if shared:
